@@ -18,6 +18,7 @@ import (
 	"runtime"
 	"strings"
 	"sync"
+	"sync/atomic"
 	"syscall"
 	"time"
 
@@ -155,6 +156,10 @@ type run struct {
 	hmu  sync.Mutex
 	trig func(dir string, n int)
 	cur  sync.Mutex // guards log / muxA / muxB against hook events of an earlier scenario's multiplexers
+	// scenarios in which some operation hung (each costs several watchdog periods): after a few of them the
+	// remaining scenarios are recorded as not replayed - the verdict is there, the rest would take hours
+	hungNow  int32
+	hungScns int
 }
 
 func (r *run) rnd(n int) int {
@@ -167,6 +172,9 @@ func (r *run) ev(name string, kv ...any) {
 	e := rec.Event{"ev": name, "scn": r.scn}
 	for i := 0; i+1 < len(kv); i += 2 {
 		e[kv[i].(string)] = kv[i+1]
+		if kv[i].(string) == "hung" && kv[i+1] == true {
+			atomic.StoreInt32(&r.hungNow, 1)
+		}
 	}
 	r.log.Add(e)
 }
@@ -364,6 +372,10 @@ func (r *run) exec(sc Scenario, w *rec.Writer) error {
 		return err
 	}
 	cutA, cutB := rawpeer.NewCutter(ca), rawpeer.NewCutter(cb)
+	if r.scn%2 == 1 {
+		// a transport whose Close reports an error (it is closed all the same): nothing may depend on the report
+		cutA.CloseErr, cutB.CloseErr = errors.New("verif: transport reports an error on close"), errors.New("verif: transport reports an error on close")
+	}
 	// arm byte-exact cuts before any traffic
 	switch sc.Fault {
 	case "cutAB":
@@ -640,11 +652,22 @@ func Run(in, out string, seed int64, skip int) (int, error) {
 		if r.scn <= skip {
 			continue
 		}
+		if r.hungScns >= 8 {
+			if err := w.WriteScenario([]rec.Event{{"ev": "Begin", "scn": r.scn, "qlen": s.QLen, "conns": s.Conns, "fault": "none", "at": 0,
+				"closers": 0, "stall": 0}, {"ev": "skipped", "scn": r.scn}, {"ev": "End", "scn": r.scn}}); err != nil {
+				return 0, err
+			}
+			continue
+		}
+		atomic.StoreInt32(&r.hungNow, 0)
 		done := isolate.Guard(60*time.Second, fmt.Sprintf("mux scenario %d", r.scn))
 		err := r.exec(s, w)
 		done()
 		if err != nil {
 			return 0, fmt.Errorf("scenario %d: %w", r.scn, err)
+		}
+		if atomic.LoadInt32(&r.hungNow) == 1 {
+			r.hungScns++
 		}
 	}
 	return w.Lines(), sc.Err()
